@@ -283,7 +283,7 @@ def m_delete(ex, args, inst):
         return None
     if not isinstance(p, Ptr):
         raise ExecError('delete of %r' % (p,))
-    r = ex.st.regions[p.rid]
+    r = ex.st.mut(p.rid)
     if r.kind not in ('heap',):
         ex.st.event('bad-free', r.kind, r.name, ex.cur_fn)
     elif not r.alive:
@@ -379,7 +379,7 @@ def write_cstring(ex, dst, s, nul=True):
             ex.store(Ptr(dst.rid, dst.off + i), 1, wrap(ord(ch), 8))
         if nul:
             ex.store(Ptr(dst.rid, dst.off + len(s)), 1, 0)
-    ex.st.side[(dst.rid, dst.off)] = CStr(s)
+    ex.st.side_set((dst.rid, dst.off), CStr(s))
     ex.st.writes.append((dst.rid, dst.off, -1))
 
 
@@ -418,7 +418,7 @@ def get_str(ex, p):
         r = ex.st.regions[p.rid]
         if r.kind == 'ext':
             s = StrVal(tm.sym('extstr:%s+%d' % (r.name, p.off), 'S'))
-            ex.st.side[(p.rid, p.off)] = s
+            ex.st.side_set((p.rid, p.off), s)
             return s
         ex.st.event('uninit-use', 'string', ex.cur_fn)
         raise ExecError('use of unconstructed std::string at %s+%d in %s' % (r.name, p.off, ex.cur_fn))
@@ -427,7 +427,7 @@ def get_str(ex, p):
 
 def set_str(ex, p, v):
     ex.check_live(p, 'string')
-    ex.st.side[(p.rid, p.off)] = StrVal(v)
+    ex.st.side_set((p.rid, p.off), StrVal(v))
     ex.st.writes.append((p.rid, p.off, 8))
 
 
@@ -487,7 +487,7 @@ def string_method(name, sig):
         r.fresh = False
         if isinstance(v, str):
             r.data = {0: v.encode('latin1') + b'\0'}
-        ex.st.side[(r.rid, 0)] = CStr(v)
+        ex.st.side_set((r.rid, 0), CStr(v))
         return Ptr(r.rid, 0)
 
     def append(ex, args, inst):
@@ -549,6 +549,7 @@ def is_cout(ex, p):
 def stream_out(ex, p, payload):
     s = ex.st.side.get((p.rid, p.off))
     if isinstance(s, StreamVal):
+        s = ex.st.side_mut((p.rid, p.off))
         if not isinstance(payload, str):
             raise ExecError('non-literal written to a string stream')
         s.buf += payload
@@ -591,7 +592,7 @@ def ostream_method(name, sig):
 def sstream_method(name, sig):
     def ctor(ex, args, inst):
         p = args[0]
-        ex.st.side[(p.rid, p.off)] = StreamVal()
+        ex.st.side_set((p.rid, p.off), StreamVal())
 
     def dtor(ex, args, inst):
         p = args[0]
@@ -603,7 +604,7 @@ def sstream_method(name, sig):
             s = ex.st.side[(args[1].rid, args[1].off)]
             set_str(ex, args[0], s.buf)
             return None
-        s = ex.st.side[(args[0].rid, args[0].off)]
+        s = ex.st.side_mut((args[0].rid, args[0].off))
         s.buf = get_str(ex, args[1]).v
         return None
     return {'ostringstream': ctor, 'stringstream': ctor, '~ostringstream': dtor, '~stringstream': dtor, 'str': strm}[name]
@@ -612,9 +613,11 @@ def sstream_method(name, sig):
 # ----------------------------------------------------------------------------------------------
 # std::vector
 
-def get_vec(ex, p, es=None):
+def get_vec(ex, p, es=None, mut=False):
     ex.check_live(p, 'vector')
     v = ex.st.side.get((p.rid, p.off))
+    if isinstance(v, VecVal) and mut:
+        v = ex.st.side_mut((p.rid, p.off))
     if not isinstance(v, VecVal):
         r = ex.st.regions[p.rid]
         ex.st.event('uninit-use', 'vector', ex.cur_fn)
@@ -626,7 +629,7 @@ def new_vec(ex, p, es, n=0, fill=None):
     buf = ex.st.new_region('vecbuf', 0, 'vector-storage')
     buf.fresh = True
     v = VecVal(es, buf.rid, n)
-    ex.st.side[(p.rid, p.off)] = v
+    ex.st.side_set((p.rid, p.off), v)
     ex.st.writes.append((p.rid, p.off, 8))
     for i in range(n):
         ex.store(Ptr(buf.rid, i * es), es, fill(i) if fill else zero_of(es))
@@ -686,12 +689,12 @@ def vector_method(elty, name, sig):
     def dtor(ex, args, inst):
         p = args[0]
         v = get_vec(ex, p)
-        ex.st.regions[v.buf].alive = False
+        ex.st.mut(v.buf).alive = False
         ex.st.side.pop((p.rid, p.off), None)
         return None
 
     def assign(ex, args, inst):
-        v = get_vec(ex, args[0])
+        v = get_vec(ex, args[0], mut=True)
         src = get_vec(ex, args[1])
         if v is not src:
             copy_vec(ex, v, src)
@@ -719,28 +722,28 @@ def vector_method(elty, name, sig):
         return 1 if get_vec(ex, args[0]).n == 0 else 0
 
     def resize(ex, args, inst):
-        v = get_vec(ex, args[0])
+        v = get_vec(ex, args[0], mut=True)
         n = args[1]
         if not isinstance(n, int):
             raise ExecError('vector resize symbolic')
         for i in range(v.n, n):
             ex.store(Ptr(v.buf, i * es), es, dflt)
         v.n = n
-        ex.st.regions[v.buf].size = n * es
+        ex.st.mut(v.buf).size = n * es
         ex.st.writes.append((args[0].rid, args[0].off, 8))
         return None
 
     def push_back(ex, args, inst):
-        v = get_vec(ex, args[0])
+        v = get_vec(ex, args[0], mut=True)
         val = ex.load(args[1], es, 'ptr' if dflt is NULL else ('f64' if dflt is tm.ZERO else 'i32'))
-        ex.st.regions[v.buf].size = (v.n + 1) * es
+        ex.st.mut(v.buf).size = (v.n + 1) * es
         ex.store(Ptr(v.buf, v.n * es), es, val)
         v.n += 1
         ex.st.writes.append((args[0].rid, args[0].off, 8))
         return None
 
     def clear(ex, args, inst):
-        v = get_vec(ex, args[0])
+        v = get_vec(ex, args[0], mut=True)
         v.n = 0
         return None
 
@@ -763,7 +766,7 @@ def copy_vec(ex, v, src):
     for i in range(src.n):
         ex.store(Ptr(v.buf, i * v.es), v.es, ex.load(Ptr(src.buf, i * src.es), src.es, 'f64'))
     v.n = src.n
-    ex.st.regions[v.buf].size = v.n * v.es
+    ex.st.mut(v.buf).size = v.n * v.es
 
 
 def vecit_method(elty, name):
@@ -796,9 +799,11 @@ def vecit_method(elty, name):
 # ----------------------------------------------------------------------------------------------
 # std::map<std::string, V>
 
-def get_map(ex, p):
+def get_map(ex, p, mut=False):
     ex.check_live(p, 'map')
     m = ex.st.side.get((p.rid, p.off))
+    if isinstance(m, MapVal) and mut:
+        m = ex.st.side_mut((p.rid, p.off))
     if not isinstance(m, MapVal):
         r = ex.st.regions[p.rid]
         if r.kind == 'global' and not r.fresh:
@@ -813,7 +818,7 @@ def new_map(ex, p, vsize):
     m = MapVal(vsize)
     e = ex.st.new_region('mapend', 0, 'map-end')
     m.end = e.rid
-    ex.st.side[(p.rid, p.off)] = m
+    ex.st.side_set((p.rid, p.off), m)
     ex.st.writes.append((p.rid, p.off, 8))
     return m
 
@@ -831,7 +836,7 @@ def map_find(ex, m, key):
 
 def map_insert(ex, m, key, vdefault):
     e = ex.st.new_region('entry', 8 + m.vsize, 'map-entry')
-    ex.st.side[(e.rid, 0)] = StrVal(key)
+    ex.st.side_set((e.rid, 0), StrVal(key))
     ex.store(Ptr(e.rid, 8), m.vsize, vdefault)
     m.entries.append((key, e.rid))
     if all(isinstance(k, str) for k, _ in m.entries):
@@ -854,12 +859,12 @@ def map_method(vty, name, sig):
         p = args[0]
         m = get_map(ex, p)
         for k, rid in m.entries:
-            ex.st.regions[rid].alive = False
+            ex.st.mut(rid).alive = False
         ex.st.side.pop((p.rid, p.off), None)
         return None
 
     def index(ex, args, inst):
-        m = get_map(ex, args[0])
+        m = get_map(ex, args[0], mut=True)
         key = get_str(ex, args[1]).v
         rid = map_find(ex, m, key)
         if rid is None:
@@ -887,9 +892,9 @@ def map_method(vty, name, sig):
         return 1 if not get_map(ex, args[0]).entries else 0
 
     def clear(ex, args, inst):
-        m = get_map(ex, args[0])
+        m = get_map(ex, args[0], mut=True)
         for k, rid in m.entries:
-            ex.st.regions[rid].alive = False
+            ex.st.mut(rid).alive = False
         m.entries = []
         ex.st.writes.append((args[0].rid, args[0].off, 8))
         return None
